@@ -14,7 +14,11 @@ import (
 // with F8_FRONT=1 (authoring aid) the front-end verdicts are summarised by error class.
 func TestF8Reference(t *testing.T) {
 	front := os.Getenv("F8_FRONT") != ""
-	for _, f := range []*wgen.Family{wgen.F8Order(false), wgen.F8Shadow(), wgen.F8Hosts()} {
+	fams := []*wgen.Family{wgen.F8Order(false), wgen.F8Shadow(), wgen.F8Hosts()}
+	if front {
+		fams = []*wgen.Family{f8Guarded("F8o"), f8Guarded("F8s"), f8Guarded("F8h")} // programs that crash the compiler are screened out
+	}
+	for _, f := range fams {
 		classes := map[string][]string{}
 		for i := 0; i < f.Count; i++ {
 			c := f.At(i)
